@@ -1066,6 +1066,9 @@ static void add_ref_seeds(void) {
 		rsig s;
 		ref_sig_params(&p, tail, rfc);
 		rs_build(&s, &p);
+		/* the second metadata link also carries machine id, sequence number (three octets) and request time */
+		ref_link_meta(&s.ch[1].links[1], 0, "cl", 0, 1, 2);
+		if (rs_fix(&s, RS_FIX_INPUTS | RS_FIX_CAL_IN | RS_FIX_TAIL) != 0) vf_harness_error("reference seed");
 		vb_reset(&b); rs_serialize(&s, &b);
 		snprintf(nm, sizeof nm, "ref:sig.tail%d.rfc%d", tail, rfc);
 		add_seed(nm, b.p, b.n);
@@ -1175,8 +1178,8 @@ static int seed_eps(const seed_t *s, int *eps) {
 
 /* ------------------------------------------------------------------ (ii) mutation families */
 #define BIG_SEED 8192
-enum { F_ID = 0, F_TRUNC, F_BYTE, F_LEN, F_ZEND, F_N };
-static const char *FNAME[F_N] = {"id", "trunc", "byte", "len", "zend"};
+enum { F_ID = 0, F_TRUNC, F_BYTE, F_LEN, F_ZEND, F_SWEEP, F_N };
+static const char *FNAME[F_N] = {"id", "trunc", "byte", "len", "zend", "sweep"};
 
 static long fam_count(const seed_t *s, int fam) {
 	switch (fam) {
@@ -1184,6 +1187,7 @@ static long fam_count(const seed_t *s, int fam) {
 		case F_TRUNC: return s->n ? (long)s->n - 1 : 0;     /* prefixes of length 1..n-1; the empty input is the case short:<entry point>:empty */
 		case F_BYTE: return (long)s->n * 6;
 		case F_LEN: return (long)s->nel * 5;
+		case F_SWEEP: return (long)s->n * 256;
 		default: return (long)s->nel;
 	}
 }
@@ -1236,6 +1240,14 @@ static int make_mutant(const seed_t *s, int fam, long idx, vbuf *out) {
 			out->p[off] = v[op];
 			return 1;
 		}
+		case F_SWEEP: {   /* every offset x every other byte value (the six values of the byte family are done there) */
+			size_t off = (size_t)(idx / 256);
+			unsigned char o = s->d[off], v = (unsigned char)(idx % 256);
+			if (v == o || v == 0 || v == 0xff || v == (unsigned char)(o ^ 1) || v == (unsigned char)(o ^ 0x80) || v == (unsigned char)(o + 1) || v == (unsigned char)(o - 1)) return 0;
+			vb_put(out, s->d, s->n);
+			out->p[off] = v;
+			return 1;
+		}
 		case F_LEN: {
 			const el_t *e = &s->el[idx / 5];
 			int op = (int)(idx % 5), k;
@@ -1277,6 +1289,7 @@ static long chunk_items(const seed_t *s, int fam) {
 	double per_item;   /* rough cost of one mutant through all its entry points, microseconds */
 	long c;
 	if (fam == F_ZEND) return 1;
+	if (fam == F_SWEEP) return 16384;
 	switch (s->type) {
 		case ST_SIG: per_item = 300.0 + 1.8 * (double)s->n; break;
 		case ST_AGGR: per_item = 200.0 + 1.2 * (double)s->n; break;
@@ -1298,6 +1311,7 @@ static void seed_cases(const seed_t *s, int fam) {
 		batch b;
 		/* debug log level: every family of the quick seeds; for the other seeds every family but the per-offset one */
 		if (L == 1 && fam == F_BYTE && !s->quick) continue;
+		if (L == 1 && fam == F_SWEEP) continue;
 		if (time_over()) return;
 		if (!vf_case_begin("m:%s:%s:%ld:L%d", s->name, FNAME[fam], start / ch, L)) continue;
 		memset(&b, 0, sizeof b);
@@ -1323,6 +1337,14 @@ static void part_seeds(int which) {   /* 0: small seeds, all families but zend; 
 		const seed_t *s = &SEEDS[i];
 		if (!seed_selected(s)) continue;
 		if (which == 2) { seed_cases(s, F_ZEND); continue; }
+		if (which == 3) {
+			/* full byte sweep: reference-built signatures (quick: the one with legacy-id and metadata links and an authentication
+			 * record; thorough: every reference-built seed up to 1200 bytes) */
+			if (strncmp(s->name, "ref:", 4) != 0 || s->n > 1200) continue;
+			if (!VF_THOROUGH && strcmp(s->name, "ref:sig.tail3.rfc0") != 0) continue;
+			seed_cases(s, F_SWEEP);
+			continue;
+		}
 		if ((s->n <= SMALL_SEED) != (which == 0)) continue;
 		for (f = F_ID; f < F_ZEND; f++) seed_cases(s, f);
 	}
@@ -1611,6 +1633,7 @@ static void run(void) {
 	part_uri();
 	part_short();
 	part_seeds(1);
+	part_seeds(3);
 	part_hashname();
 	part_seeds(2);
 }
